@@ -633,12 +633,6 @@ def gen_shard(arg):
     return col
 
 
-def _bases(lang, n_generated, seed, avoid):
-    """Mutation bases: corpus files up to MAX_MUTATION_BASE_BYTES plus generated programs."""
-    files = [d for _, d in G.corpus()[lang] if 0 < len(d) <= G.MAX_MUTATION_BASE_BYTES]
-    return files
-
-
 def _strip_leading_line_comments(data):
     lines = data.splitlines(keepends=True)
     while lines and (lines[0].lstrip().startswith(b"//") or not lines[0].strip()):
